@@ -355,7 +355,7 @@ def long_case(draw):
                               dtypes=["f4", "c8"], sr=G.freq_q(0, 9.6)))
     spec["n"] = n
     return {"sig": spec, "cut": draw(st.integers(n * 3 // 4, n - 3)), "k": draw(st.sampled_from([1, -1, 2, -2, 3])),
-            "how": draw(st.sampled_from(["gap_or_overlap", "shift_start", "ok"]))}
+            "how": draw(st.sampled_from(["gap_or_overlap", "shift_start", "ok", "rate_drift", "rate_drift"]))}
 
 
 def run_long(case, stt):
@@ -370,6 +370,19 @@ def run_long(case, stt):
             y = pb.concatenate([p0, z[a:]])
         check(len(y) == n and bits_equal(np.asarray(y.data), np.asarray(z.data)), "long split not reproduced")
         assert_start(y, O.T(z.start_time), k=1, what="concatenate (long): ")
+    elif case["how"] == "rate_drift":
+        # the second piece's sample rate is off by so little that only its LENGTH makes it matter: |k| + 1 samples of drift over the piece
+        p1 = z[a:]
+        rel = (abs(k) + 1) / max(len(p1), 1)
+        if rel > 0.25:
+            stt.label("skip_piece_too_short_for_drift")
+            return
+        q = type(p1).like(p1, sample_rate=p1.sample_rate * (1 + (rel if k > 0 else -rel)))
+        if spec["cls"] in G.BASEBAND:
+            stt.label("skip_baseband_rate")  # (the rate of a baseband piece is also its channel width: another refusal)
+            return
+        must_raise("concatenate(time) with a piece whose sample rate differs by %.2g (%d samples of drift over its %d samples)" % (rel, abs(k) + 1, len(p1)),
+                   lambda: pb.concatenate([p0, q]), (ValueError,))
     elif case["how"] == "gap_or_overlap":
         must_raise("concatenate(time) with a %+d-sample gap after %d samples" % (k, a), lambda: pb.concatenate([p0, z[a + k :]]), (ValueError,))
     else:
